@@ -190,13 +190,23 @@ class Transaction:
         return None
 
     @staticmethod
-    def _schema_signature(schema: Schema) -> Set[Any]:
-        """Comparable signature of a schema's fields (name, type, required)."""
-        sig = set()
+    def _schema_signature(schema: Schema) -> List[Any]:
+        """Comparable signature of a schema's fields: (id, name, type, required), IN FIELD ORDER.
+
+        Order and ids are part of the signature. Field order decides the column
+        order of the parquet files written for the append, and pa.concat_tables
+        requires identical column order, so a reordered schema must not compare
+        equal (it used to: every later full scan raised). Field ids key the
+        column bounds stored with each data file, and pruning looks them up
+        through the TABLE schema's name -> id map, so re-numbered ids must not
+        compare equal either (they used to: bounds landed on other columns' ids
+        and filtered scans silently dropped matching rows).
+        """
+        sig = []
         for f in schema.fields:
             f_type = f.get("type")
             type_key = json.dumps(f_type, sort_keys=True) if isinstance(f_type, (dict, list)) else f_type
-            sig.add((f.get("name"), type_key, bool(f.get("required", False))))
+            sig.append((f.get("id"), f.get("name"), type_key, bool(f.get("required", False))))
         return sig
 
     def _validate_schema_against_table(self, schema: Schema) -> None:
